@@ -235,6 +235,11 @@ theorem header_color_mode_checked {h : Header} (hv : h.Valid) : h.colorMode ∈ 
 
 example : headerVal.Valid := by decide
 
+/-- the boundaries (repaired source): 56 channels and a side of 300000 pass, 57 and 300001 do not -/
+example : ({ headerVal with channels := 56, height := 300000, width := 300000 } : Header).Valid ∧
+    ¬ ({ headerVal with channels := 57 } : Header).Valid ∧ ¬ ({ headerVal with height := 300001 } : Header).Valid ∧
+    ¬ ({ headerVal with width := 300001 } : Header).Valid ∧ ¬ ({ headerVal with channels := 0 } : Header).Valid := by decide
+
 /-- whatever `Header.dec` returns passed the validators, is the raw field tuple, and took 26 bytes -/
 theorem header_rejects {b : B} {h : Header} {p : Nat} (hd : Header.dec b 0 = .ok (h, p)) : h.Valid :=
   (header_valid_of_ok hd).1
